@@ -192,16 +192,17 @@ func (m *MethodScope) AddVar(ctx context.Context, vr *types.Var, prefix string, 
 			imports: imports,
 			pkgPath: m.pkgPath,
 		}
-		m.AddName(v.TypeString())
-		// Also reserve every identifier the type string is made of (element
-		// types of slices, maps, channels, variadics, type arguments...), so
-		// that a parameter named like one of them is renamed and cannot
-		// capture it inside the method body.
-		for _, ident := range strings.FieldsFunc(v.TypeString(), func(r rune) bool {
-			return r != '_' && !unicode.IsLetter(r) && !unicode.IsDigit(r)
-		}) {
-			m.AddName(ident)
-		}
+	}
+	m.AddName(v.TypeString())
+	// Also reserve every identifier the type string is made of (element
+	// types of slices, maps, channels, variadics, type arguments...), so
+	// that a parameter named like one of them is renamed and cannot
+	// capture it inside the method body. This holds for a replace-type
+	// target as well: it is the type the variable is rendered with.
+	for _, ident := range strings.FieldsFunc(v.TypeString(), func(r rune) bool {
+		return r != '_' && !unicode.IsLetter(r) && !unicode.IsDigit(r)
+	}) {
+		m.AddName(ident)
 	}
 	v.Name = m.SuggestName(varName(vr, prefix))
 	m.vars = append(m.vars, &v)
